@@ -83,7 +83,7 @@ def to_text_events(events):
                 date = _ord(e["date"]) if e.get("date") else today
                 if not (1000 <= int(e["today"][:4]) <= 9999):
                     continue
-                out.append(dict(ev="incr", P=P, old=glue.cp(e["old"]), f=f, date=date, today=today, out=glue.cp(e["new"]) if e.get("new") else [0],
+                out.append(dict(ev="incr", mode="lib", P=P, old=glue.cp(e["old"]), f=f, date=date, today=today, out=glue.cp(e["new"]) if e.get("new") else [0],
                                 dbg="repo test: %s %s %s %s -> %s" % (st["cmd"], e.get("pattern"), e["old"], {k: v for k, v in f.items() if v and v != "none"}, e.get("new"))))
             elif e["ev"] == "gate":
                 P = _pattern(e.get("pattern"))
